@@ -748,6 +748,17 @@ def run(model, rep, tier):
                 later = [p_ for p_ in ps[i + 1:] if not (isinstance(p_, ast.Constant) and isinstance(p_.value, str) and not p_.value.strip())]
                 if later:
                     okk, why = False, f"`{src(ps[i])[:40]}` is followed by `{src(later[0])[:30]}` in `{src(r.value)[:60]}`"
+        # text appended to the returned accumulator (`text += f" {...}"` ... `return text`) is the tail of the text form
+        ret_names = {r.value.id for r in rets if isinstance(r.value, ast.Name)}
+        augs = sorted([x for x in ast.walk(f9.node) if isinstance(x, ast.AugAssign) and isinstance(x.op, ast.Add) and isinstance(x.target, ast.Name) and x.target.id in ret_names], key=lambda x: x.lineno)
+        for ai, ag in enumerate(augs):
+            ps = parts(ag.value)
+            idx = [i for i, p_ in enumerate(ps) if (isinstance(p_, ast.Name) and p_.id in locs) or chunked(p_)]
+            for i in idx:
+                in_ret.add(id(ps[i]))
+                later = [p_ for p_ in ps[i + 1:] if not (isinstance(p_, ast.Constant) and isinstance(p_.value, str) and not p_.value.strip())]
+                if later or any(a2.target.id == ag.target.id for a2 in augs[ai + 1:]):
+                    okk, why = False, f"`{src(ps[i])[:40]}` is appended to `{ag.target.id}` but more text follows it"
         stray = [u for u in uses if id(u) not in in_ret] + [c for c in calls if id(c) not in in_ret and not any(isinstance(x, ast.Assign) and x.value is c for x in ast.walk(f9.node))]
         if stray and okk:
             rep.blind("R-05.9", f9.qualname, where(f9, stray[0]), f"chunked value used outside the returned text (`{src(stray[0])[:40]}`): position in the text form not determined", stmt="chunked-last")
@@ -929,6 +940,8 @@ def run(model, rep, tier):
 
 
 WITNESSES = [
+    {"id": "c05-tsig-other-data-chunked", "rule": "R-05.9", "file": "dns/rdtypes/ANY/TSIG.py", "expect": "fires",
+     "old": '            text += f" {dns.rdata._base64ify(self.other, 0)}"', "new": '            text += f" {dns.rdata._base64ify(self.other)}"'},
     {"id": "c05-loc-float-truncated", "rule": "R-05.15", "file": "dns/rdtypes/ANY/LOC.py", "expect": "fires",
      "old": "    what = round(what * 3600000)", "new": "    what = int(what * 3600000)"},
     {"id": "c05-twin-loc-float-int-round", "rule": "R-05.15", "file": "dns/rdtypes/ANY/LOC.py", "expect": "silent",
